@@ -55,4 +55,10 @@ var registry = []prop{
 			"the boundary sweep is exhaustive over the boundary sets only, random draws cover the rest of the 2^56 space by sampling",
 		},
 	},
+	{
+		ID: "C14", Pkg: "props/c14", Level: "exploration", Hang: true,
+		Quick:  tierCfg{Shards: 1, Scale: 1, TimeoutS: 300},
+		Thor:   tierCfg{Shards: 16, Scale: 10, TimeoutS: 1500},
+		Assume: []string{"relation ids >= 1 (id 0 is the iterator's end marker)", "the order clause is judged only when the whole member-reference graph over ids with history is acyclic, as the statement says", "Close/cancel interleavings are sampled by the stop position, not enumerated"},
+	},
 }
